@@ -730,4 +730,113 @@ theorem claims_built_bytes (c : ClaimsSet) (k : Nat) (hk : k + 1 ≤ recursionLi
   obtain ⟨x, h1, h2, h3, h4⟩ := claims_emit_normal c k hw hn
   exact ⟨enc x, by simp only [toVec, h1], by simp only [fromSlice, readToValue_enc x h2 (by omega), h4]⟩
 
+/-! ### KDF context -/
+
+structure PartyInfo.NF (p : PartyInfo) : Prop where
+  identity : ∀ b, p.identity = some b → b.length < 2 ^ 64
+  nonce : ∀ b, p.nonce = some (.bytes b) → b.length < 2 ^ 64
+  other : ∀ b, p.other = some b → b.length < 2 ^ 64
+
+def nonceValue : Option Nonce → Value
+  | none => .null
+  | some (.bytes b) => .bytes b
+  | some (.integer i) => .int i
+
+theorem PartyInfo.toValue_eq (p : PartyInfo) :
+    p.toValue = .ok (.array [optBytesToValue p.identity, nonceValue p.nonce, optBytesToValue p.other]) := by
+  obtain ⟨ident, nonce, other⟩ := p
+  cases nonce with
+  | none => rfl
+  | some nn => cases nn <;> rfl
+
+theorem normal_nonce (o : Option Nonce) (h1 : ∀ b, o = some (.bytes b) → b.length < 2 ^ 64)
+    (h2 : ∀ i, o = some (.integer i) → i64Min ≤ i ∧ i ≤ i64Max) : Normal (nonceValue o) ∧ depthOf (nonceValue o) = 0 := by
+  cases o with
+  | none => simp [nonceValue, Normal, depthOf]
+  | some nn =>
+    cases nn with
+    | bytes b => exact ⟨by simp only [nonceValue, Normal]; exact h1 b rfl, by simp [nonceValue, depthOf]⟩
+    | integer i => exact ⟨normal_int_i64 i (h2 i rfl), by simp [nonceValue, depthOf]⟩
+
+theorem party_emit_normal (p : PartyInfo) (hw : p.WF) (hn : PartyInfo.NF p) :
+    ∃ x, p.toValue = .ok x ∧ Normal x ∧ depthOf x = 1 ∧ PartyInfo.fromValue x = .ok p := by
+  obtain ⟨x, h1, h2⟩ := party_rt p hw
+  rw [PartyInfo.toValue_eq] at h1
+  cases h1
+  obtain ⟨n1, d1⟩ := normal_optBytes p.identity hn.identity
+  obtain ⟨n3, d3⟩ := normal_optBytes p.other hn.other
+  obtain ⟨n2, d2⟩ := normal_nonce p.nonce hn.nonce hw
+  refine ⟨_, PartyInfo.toValue_eq p, ?_, ?_, h2⟩
+  · simp only [Normal, NormalL]; exact ⟨by simp, n1, n2, n3, trivial⟩
+  · simp only [depthOf, depthOfL, d1, d2, d3]; simp
+
+structure SuppPubInfo.NF (s : SuppPubInfo) : Prop where
+  prot : ProtectedHeader.NF s.protected_
+  other : ∀ b, s.other = some b → b.length < 2 ^ 64
+
+theorem supp_emit_normal (s : SuppPubInfo) (hw : s.WF) (hn : SuppPubInfo.NF s) (x : Value) (hx : s.toValue = .ok x) :
+    Normal x ∧ depthOf x = 1 := by
+  obtain ⟨len, p, other⟩ := s
+  obtain ⟨b, p', h1, _⟩ := ph_api_rt p hw.prot
+  obtain ⟨n2, d2⟩ := ph_emit_normal p hn.prot _ h1
+  have hl := hw.len
+  simp only at hl
+  have n1 : Normal (.int len) := by simp only [Normal]; unfold u64Max at hl; omega
+  cases other with
+  | none =>
+    simp [SuppPubInfo.toValue, h1] at hx; subst hx
+    exact ⟨by simp only [Normal, NormalL]; exact ⟨by simp, n1, n2, trivial⟩, by simp [depthOf, depthOfL]⟩
+  | some o =>
+    simp [SuppPubInfo.toValue, h1] at hx; subst hx
+    have n3 : Normal (.bytes o) := by simp only [Normal]; exact hn.other o rfl
+    exact ⟨by simp only [Normal, NormalL]; exact ⟨by simp, n1, n2, n3, trivial⟩, by simp [depthOf, depthOfL]⟩
+
+structure CoseKdfContext.NF (k : CoseKdfContext) : Prop where
+  alg : RegPrivN Reg.algorithm k.algorithmId
+  partyU : PartyInfo.NF k.partyUInfo
+  partyV : PartyInfo.NF k.partyVInfo
+  supp : SuppPubInfo.NF k.suppPubInfo
+  priv : k.suppPrivInfo.length + 4 < 2 ^ 64 ∧ ∀ b ∈ k.suppPrivInfo, b.length < 2 ^ 64
+
+theorem kdf_emitted_normal (k : CoseKdfContext) (hw : k.WF) (hn : CoseKdfContext.NF k) (x : Value) (hx : k.toValue = .ok x) :
+    Normal x ∧ depthOf x ≤ 2 := by
+  obtain ⟨alg, pu, pv, supp, priv⟩ := k
+  obtain ⟨xu, hu1, nu, du, _⟩ := party_emit_normal pu hw.partyU hn.partyU
+  obtain ⟨xv, hv1, nv, dv, _⟩ := party_emit_normal pv hw.partyV hn.partyV
+  obtain ⟨xs, s', hs1, _⟩ := supp_rt supp hw.supp
+  obtain ⟨ns, ds⟩ := supp_emit_normal supp hw.supp hn.supp xs hs1
+  obtain ⟨na, da⟩ := normal_regPrivValue Reg.algorithm alg hn.alg
+  have h1 : CoseKdfContext.toValue ⟨alg, pu, pv, supp, priv⟩ = .ok (.array ([RegLabelPriv.value Reg.algorithm alg, xu, xv, xs] ++ priv.map Value.bytes)) := by
+    simp [CoseKdfContext.toValue, RegLabelPriv.toValue_eq, hu1, hv1, hs1]
+  rw [h1] at hx; cases hx
+  have hp := hn.priv
+  simp only at hp
+  have hall : ∀ z ∈ [RegLabelPriv.value Reg.algorithm alg, xu, xv, xs] ++ priv.map Value.bytes, Normal z ∧ depthOf z ≤ 1 := by
+    intro z hz
+    rcases List.mem_append.mp hz with hz | hz
+    · simp only [List.mem_cons, List.not_mem_nil, or_false] at hz
+      rcases hz with rfl | rfl | rfl | rfl
+      · exact ⟨na, by omega⟩
+      · exact ⟨nu, by omega⟩
+      · exact ⟨nv, by omega⟩
+      · exact ⟨ns, by omega⟩
+    · obtain ⟨b, hb, rfl⟩ := List.mem_map.mp hz
+      exact ⟨by simp only [Normal]; exact hp.2 b hb, by simp [depthOf]⟩
+  refine ⟨?_, ?_⟩
+  · simp only [Normal]
+    exact ⟨by simp; omega, normalL_of _ (fun z hz => (hall z hz).1)⟩
+  · rw [depthOf_array]
+    have := depthOfL_le 1 _ (fun z hz => (hall z hz).2)
+    omega
+
+/-- KDF context built in memory: the bytes of `to_vec` decode back to it (up to the bytes assigned to the protected header). -/
+theorem kdf_built_bytes (k : CoseKdfContext) (hw : k.WF) (hn : CoseKdfContext.NF k) :
+    ∃ bs k', toVec CoseKdfContext.toValue k = .ok bs ∧ fromSlice CoseKdfContext.fromValue bs = .ok k' ∧
+      k'.algorithmId = k.algorithmId ∧ k'.partyUInfo = k.partyUInfo ∧ k'.partyVInfo = k.partyVInfo ∧ k'.suppPrivInfo = k.suppPrivInfo ∧
+      k'.suppPubInfo.keyDataLength = k.suppPubInfo.keyDataLength ∧ k'.suppPubInfo.other = k.suppPubInfo.other ∧
+      ProtectedHeader.erase k'.suppPubInfo.protected_ = ProtectedHeader.erase k.suppPubInfo.protected_ := by
+  obtain ⟨x, k', h1, h2, rest⟩ := kdf_rt k hw
+  obtain ⟨n, d⟩ := kdf_emitted_normal k hw hn x h1
+  exact ⟨enc x, k', by simp only [toVec, h1], by simp only [fromSlice, readToValue_enc x n (by unfold recursionLimit; omega), h2], rest⟩
+
 end Coset
